@@ -6,6 +6,7 @@ import (
 	"io"
 	"os"
 	"path/filepath"
+	"sort"
 	"strings"
 	"testing"
 
@@ -79,6 +80,12 @@ func c04Kinds(code, nrev int) ([]string, string) {
 // every lookup with the reference model.
 func c04Check(c *kit.Case, h *kit.XHistory, desc string, plain bool, keyPrefix string) {
 	data, info := kit.RenderHistory(c.Rng, h, plain, nil)
+	c04CheckData(c, h, data, info, desc, keyPrefix)
+}
+
+// c04CheckData compares what the Reader returns for the file data with the
+// reference model of the history h.
+func c04CheckData(c *kit.Case, h *kit.XHistory, data []byte, info *kit.XRenderInfo, desc string, keyPrefix string) {
 	if c.R.Replaying() {
 		os.WriteFile(filepath.Join(c.R.OutDir(), "c04.pdf"), data, 0o644)
 	}
@@ -368,6 +375,107 @@ func TestVerifC04(t *testing.T) {
 		h.Revs = []kit.XRev{rev0, rev1}
 		c04Check(c, h, fmt.Sprintf("update section '1 %d' starting with '0000000000 65535 f'", k+1), true, "subsection-1-n-first-entry-free-65535/")
 		c.Distinct(fmt.Sprint(c.Index))
+	})
+
+	// ---- the newest cross-reference section comes first in the file and its /Prev
+	// points forward (the layout of linearized files): two revisions of classic
+	// tables, the update's objects and section written before the original's
+	r.Phase("forward-prev", r.N(200, 4000), func(c *kit.Case) {
+		rng := c.Rng
+		h := &kit.XHistory{Version: kit.Pick(rng, []string{"1.2", "1.4", "1.7"})}
+		rev0 := kit.XRev{Actions: map[uint32]kit.XAction{}, Kind: "table", Extra: kit.XDict{"XXVerifRev": int64(0)}}
+		rev1 := kit.XRev{Actions: map[uint32]kit.XAction{}, Kind: "table", Extra: kit.XDict{"XXVerifRev": int64(1)}}
+		rev0.Actions[1] = kit.XAction{Value: c04Catalog(h, 2)}
+		rev0.Actions[2] = kit.XAction{Value: c04Pages()}
+		n0 := 1 + rng.Intn(4)
+		for i := 0; i < n0; i++ {
+			rev0.Actions[uint32(3+i)] = kit.XAction{Value: kit.XGenValue(rng, 1, nil)}
+		}
+		for i := 0; i < n0+2; i++ {
+			if rng.Bool() {
+				v := kit.XGenValue(rng, 1, nil)
+				if v == nil {
+					v = int64(i)
+				}
+				rev1.Actions[uint32(3+i)] = kit.XAction{Value: v}
+			}
+		}
+		if len(rev1.Actions) == 0 {
+			rev1.Actions[3] = kit.XAction{Value: kit.XString("updated")}
+		}
+		h.Revs = []kit.XRev{rev0, rev1}
+		st := &kit.XStyle{Rng: rng, Plain: true}
+		object := func(b *bytes.Buffer, offs map[uint32]int, base int, n uint32, v any) {
+			offs[n] = base + b.Len()
+			fmt.Fprintf(b, "%d 0 obj\n", n)
+			st.Render(b, v)
+			b.WriteString("\nendobj\n")
+		}
+		section := func(offs map[uint32]int, size int, extra string) []byte {
+			var b bytes.Buffer
+			b.WriteString("xref\n")
+			var nums []int
+			for n := range offs {
+				nums = append(nums, int(n))
+			}
+			sort.Ints(nums)
+			if extra == "" { // the original: one subsection from 0
+				fmt.Fprintf(&b, "0 %d\n0000000000 65535 f \n", size)
+				for n := 1; n < size; n++ {
+					if o, ok := offs[uint32(n)]; ok {
+						fmt.Fprintf(&b, "%010d 00000 n \n", o)
+					} else {
+						b.WriteString("0000000000 00000 f \n")
+					}
+				}
+			} else {
+				for _, n := range nums {
+					fmt.Fprintf(&b, "%d 1\n%010d 00000 n \n", n, offs[uint32(n)])
+				}
+			}
+			fmt.Fprintf(&b, "trailer\n<< /Size %d /Root 1 0 R %s >>\n", size, extra)
+			return b.Bytes()
+		}
+		size := 3 + n0 + 2
+		header := []byte("%PDF-" + h.Version + "\n%\xe2\xe3\xcf\xd3\n")
+		// part 1: the update (objects, then its section with a 10-digit /Prev)
+		var objs1 bytes.Buffer
+		offs1 := map[uint32]int{}
+		var nums1 []int
+		for n := range rev1.Actions {
+			nums1 = append(nums1, int(n))
+		}
+		sort.Ints(nums1)
+		for _, n := range nums1 {
+			object(&objs1, offs1, len(header), uint32(n), rev1.Actions[uint32(n)].Value)
+		}
+		secBStart := len(header) + objs1.Len()
+		secB := section(offs1, size, "/XXVerifRev 1 /Prev 0000000000")
+		// part 2: the original
+		var objs0 bytes.Buffer
+		offs0 := map[uint32]int{}
+		base0 := secBStart + len(secB)
+		var nums0 []int
+		for n := range rev0.Actions {
+			nums0 = append(nums0, int(n))
+		}
+		sort.Ints(nums0)
+		for _, n := range nums0 {
+			object(&objs0, offs0, base0, uint32(n), rev0.Actions[uint32(n)].Value)
+		}
+		secAStart := base0 + objs0.Len()
+		secA := section(offs0, 3+n0, "")
+		secB = bytes.Replace(secB, []byte("/Prev 0000000000"), []byte(fmt.Sprintf("/Prev %010d", secAStart)), 1)
+		var f bytes.Buffer
+		f.Write(header)
+		f.Write(objs1.Bytes())
+		f.Write(secB)
+		f.Write(objs0.Bytes())
+		f.Write(secA)
+		fmt.Fprintf(&f, "startxref\n%d\n%%%%EOF\n", secBStart)
+		info := &kit.XRenderInfo{Kinds: []string{"table", "table"}, Features: []string{"newest-section-first"}}
+		c04CheckData(c, h, f.Bytes(), info, fmt.Sprintf("update written before the original, /Prev %d points forward from %d", secAStart, secBStart), "forward-prev/")
+		c.Distinct(fmt.Sprintf("fp|%d|%v|%d", n0, nums1, f.Len()))
 	})
 
 	// ---- the /Length clause
